@@ -84,7 +84,8 @@ def leaf_spec(env, T, P, path, regions, mode, needs):
     if overrun is not None:
         def rec_for(r):
             g = r._ghost
-            return {"trace": [("needs", z3.simplify(g["max"] - g["a0"]))],
+            rest = z3.simplify(z3.If(g["max"] - g["a0"] >= 0, g["max"] - g["a0"], z3.IntVal(0)))  # nothing to skip if the region is already over its limit
+            return {"trace": [("needs", rest)],
                     "outcome": ("raise", "SizeConstraintExceededError", {"constraint": r, "violator_path": path, "exceeded_by": z3.simplify(g["a0"] + w - g["max"]),
                                                                      "size_already": g["a0"], "size_max": g["max"]})}
         first = rec_for(overrun)
@@ -221,7 +222,7 @@ def unit_leaf(tname, states, mode):
     loops = leaf_loop_specs()
 
     def run(ctx):
-        regions = [mk_region(ctx, f"r{i}", st) for i, st in enumerate(states)]
+        regions = [mk_region(ctx, f"r{i}", st, acc=False) for i, st in enumerate(states)]
         lst = mk_region_list(regions)
         I = Interp(ctx, stubs=stubs, loop_specs=loops)
         igen = run_sync(I.call(M.process_primitive, (T, path), {"size_constraints": lst, "abort_on_error": mode == "strict"}))
